@@ -302,6 +302,69 @@ def scenarios(fam, ref):
                     return res
                 return run
             out.append(('advection kernels (%s splines)' % ('uniform cubic' if cub else 'general'), mk()))
+        # poloidal steps (explicit and implicit) and get_lagrange_vals: concrete potential whose feet leave through both radial
+        # boundaries, the 2-D spline of f symbolic, both boundary modes
+        for cub in (True, False):
+            def mk2(cub=cub):
+                def run(mod, ctx):
+                    from lib import splineoracle as SO
+                    from checks import c12
+                    fm = getattr(ctx, 'float_mode', False)          # float replay: plain numpy floats instead of exact proxies
+                    KK = (lambda v: float(v)) if fm else K
+                    karr = (lambda vs: np.array([float(v) for v in vs])) if fm else numenv.karr
+
+                    def zeros(shape):
+                        if fm:
+                            return np.zeros(shape)
+                        a = np.empty(shape, dtype=object)
+                        a[...] = K(0)
+                        return a
+                    path = 'cu' if cub else 'nu'
+                    nq, ncr, deg = 4, 2, 3
+                    qb, rb = c12.spaces(path, nq, ncr, deg)
+                    Tq, Tr = SO.math_knots(qb, deg, True), SO.math_knots(rb, deg, False)
+                    if cub:
+                        kq = karr([qb[0], qb[-1], qb[1] - qb[0], nq])
+                        kr = karr([rb[0], rb[-1], rb[1] - rb[0], ncr])
+                    else:
+                        kq, kr = karr(Tq), karr(Tr)
+                    qpts = SO.greville(Tq, deg, True, nq) if hasattr(SO, 'greville') else None
+                    if qpts is None:
+                        qpts = [sum(Tq[i + 1:i + deg + 1], Fr(0)) / deg for i in range(nq)]
+                        qpts = [(q - qb[0]) % (qb[-1] - qb[0]) + qb[0] for q in qpts]
+                    rpts = [sum(Tr[i + 1:i + deg + 1], Fr(0)) / deg for i in range(ncr + deg)]
+                    Cphi = c12.potential_coeffs('wave', Fr(2), nq, deg, ncr, deg, Tr, rpts, seed=11)
+                    cphi = zeros((nq + deg, ncr + deg))
+                    for i in range(nq + deg):
+                        for j in range(ncr + deg):
+                            cphi[i, j] = KK(Cphi[i][j])
+                    cpol = sym_mat('P', nq + deg, ncr + deg)
+                    if fm:
+                        cpol = np.array(cpol, dtype=float)
+                    for i in range(deg):
+                        cpol[nq + i, :] = cpol[i, :]
+                    cn = [KK(getattr(Consts, k)) for k in ('CN0', 'kN0', 'deltaRN0', 'rp', 'CTi', 'kTi', 'deltaRTi')]
+                    res = []
+                    nr = len(rpts)
+                    for dt, nul in ((Fr(2), False), (Fr(-2), False), (Fr(2), True)):
+                        f = zeros((nq, nr))
+                        work = [zeros((nq, nr)) for _ in range(8)]
+                        mod.poloidal_advection_step_expl(f, KK(dt), KK(Fr(1, 2)), karr(rpts), karr(qpts), *work,
+                                                         kq, kr, cphi, deg, deg, kq, kr, cpol, deg, deg, *cn, KK(Fr(3, 2)), cub, nul)
+                        res += list(f.ravel())
+                    f = zeros((nq, nr))
+                    work = [zeros((nq, nr)) for _ in range(8)]
+                    Cl = c12.potential_coeffs('wave_local', Fr(3), nq, deg, ncr, deg, Tr, rpts, seed=11)
+                    cl = zeros((nq + deg, ncr + deg))
+                    for i in range(nq + deg):
+                        for j in range(ncr + deg):
+                            cl[i, j] = KK(Cl[i][j])
+                    mod.poloidal_advection_step_impl(f, KK(Fr(1, 2)), KK(Fr(1, 2)), karr(rpts), karr(qpts), *work,
+                                                     kq, kr, cl, deg, deg, kq, kr, cpol, deg, deg, *cn, KK(Fr(3, 2)), KK(Fr(1, 20)), cub, False)
+                    res += list(f.ravel())
+                    return res
+                return run
+            out.append(('poloidal steps (%s splines)' % ('uniform cubic' if cub else 'general'), mk2()))
     return out
 
 
@@ -392,7 +455,14 @@ def work(item):
                 else:
                     res['inconclusive'].append('symbolic disagreement not reproduced in floats: %r' % rep)
             else:
-                res['inconclusive'].append('unknown equivalence query (%s, %s)' % (copy_rel, label))
+                # no verdict (uninterpreted exp/tanh at different arguments inside non-linear terms): a concrete float run of both
+                # functions may still exhibit the disagreement, which is then a witness in its own right
+                prob = float_disagreement(fam, copy_rel, label, {})
+                if prob:
+                    res['violations'].append(('copies:%s' % copy_rel, '%s and its reference disagree in scenario "%s": %s (solver verdict unknown; witness from the float run)' % (copy_rel, label, prob),
+                                              dict(kind='copy', copy=copy_rel, scenario=label, concrete=prob)))
+                else:
+                    res['inconclusive'].append('unknown equivalence query (%s, %s)' % (copy_rel, label))
         if len(res['samples']) < 1:
             res['samples'].append(dict(copy=copy_rel, scenario=label, paths=npaths))
     numenv.disable()
@@ -413,6 +483,8 @@ def float_disagreement(fam, copy_rel, label, inputs):
         scen = dict(scenarios(fam, ref))[label]
 
         class FakeCtx:
+            float_mode = True
+
             def assume(self, c):
                 pass
         import random
@@ -486,7 +558,7 @@ def main():
     run.bounds = dict(copies=len(items), scenarios='general splines degrees 1,3,4; uniform cubic 1 and 3 cells (dx != dy); all initialisation functions; density kernels; '
                       'v-parallel evaluation step (three boundary modes, symbolic shift), flux_advection')
     run.outside = ['THE MAIN CLAUSE OF C19: pyccel-generated Fortran/C shared objects vs. the interpreted source, and success of the documented build (no Fortran/LLVM-IR to SMT engine here)',
-                   'numba / pythran compilation itself (the copies are executed as Python)', 'poloidal advection steps and get_lagrange_vals of the copies (not exercised)',
+                   'numba / pythran compilation itself (the copies are executed as Python)', 'get_lagrange_vals of the copies (not exercised); poloidal steps only on the listed potentials',
                    'floating-point reassociation']
     run.assumptions = ['exact reals for doubles']
     ev_extra = dict(programs=programs, disagreements_checked=len(run.violations) + len(run.known_hit))
